@@ -1,9 +1,9 @@
 SPECIFICATION Spec
 CONSTANTS
   MaxLen = 1000
-  NSeed = 6
-  EmitLen = 24
-  OpFilter <- AllOps
+  NSeed = 3
+  EmitLen = 12
+  OpFilter <- FocusOps
   NParam = 4
 CONSTRAINT Emit
 CHECK_DEADLOCK FALSE
